@@ -261,10 +261,13 @@ def gen_cases(ck):
                     if c != 1 and version == 2 and tag != "small":
                         continue  # the version only reaches the RLE row table
                     cls = classes(ck.rng)
-                    if tag in ("huge", "rand") and ck.tier != "thorough":
+                    if tag == "huge" and ck.tier != "thorough":
+                        # (extremes make ~25000 packets per 64 KiB row: minutes in the quadratic decoder model; thorough only)
+                        cls = ck.rng.sample(cls[:5], 2)
+                    elif tag == "rand" and ck.tier != "thorough":
                         cls = ck.rng.sample(cls, 2)
                     elif tag == "huge":
-                        cls = [cls[1], cls[4], cls[0]]
+                        cls = [cls[1], cls[4], cls[0]] + ([cls[5]] if depth == 8 else [])
                     for ct in cls:
                         yield ((c, w, h, depth, version, n), ct, tag)
 
